@@ -2,6 +2,7 @@ package verifsim
 
 import (
 	"context"
+	"sync"
 	"fmt"
 	"os"
 	"sort"
@@ -120,6 +121,46 @@ type c10Run struct {
 	step     int
 	seq      int
 	shape    map[string]bool
+	subs     map[string]*c10Sub
+}
+
+// c10Sub collects what a GraphQL subscription delivers.
+type c10Sub struct {
+	mu   sync.Mutex
+	msgs []string
+}
+
+func (s *c10Sub) take() []string {
+	s.mu.Lock()
+	defer s.mu.Unlock()
+	out := s.msgs
+	s.msgs = nil
+	sort.Strings(out)
+	return out
+}
+
+// subscribe opens `subscription { User { ... } }` on n for the given requester.
+func (r *c10Run) subscribe(n *SimNode, id immutable.Option[identity.Identity]) (*c10Sub, error) {
+	res := n.DB.ExecRequest(identity.WithContext(n.ctx, id), `subscription { User { _docID name age score team } }`)
+	if len(res.GQL.Errors) > 0 {
+		return nil, res.GQL.Errors[0]
+	}
+	if res.Subscription == nil {
+		return nil, fmt.Errorf("no subscription channel")
+	}
+	sub := &c10Sub{}
+	go func() {
+		for m := range res.Subscription {
+			var errs []string
+			for _, e := range m.Errors {
+				errs = append(errs, e.Error())
+			}
+			sub.mu.Lock()
+			sub.msgs = append(sub.msgs, canon(m.Data)+" "+strings.Join(errs, ";"))
+			sub.mu.Unlock()
+		}
+	}()
+	return sub, nil
 }
 
 func some(i identity.FullIdentity) immutable.Option[identity.Identity] {
@@ -179,6 +220,21 @@ func runC10(p *Plan, res *Result) {
 		res.HarnessErr = "precondition: twin got a different policy id"
 		return
 	}
+	r.subs = map[string]*c10Sub{}
+	for _, who := range []struct {
+		name string
+		id   immutable.Option[identity.Identity]
+	}{{"stranger", some(r.stranger)}, {"anonymous", anon}} {
+		for nname, nd := range map[string]*SimNode{"real": r.real, "pub": r.pub} {
+			sub, err := r.subscribe(nd, who.id)
+			if err != nil {
+				res.HarnessErr = "subscribe: " + err.Error()
+				return
+			}
+			r.subs[nname+"/"+who.name] = sub
+		}
+	}
+	synctest.Wait()
 	for i, s := range p.Steps {
 		if len(res.Viols) > 0 || res.HarnessErr != "" {
 			break
@@ -387,6 +443,17 @@ func (r *c10Run) requests(hiddenLive []string) []c10Req {
 }
 
 func (r *c10Run) check(i int, after string) {
+	// subscriptions of requesters who may read only the public documents deliver what they deliver on the twin
+	for _, who := range []string{"stranger", "anonymous"} {
+		got, want := r.subs["real/"+who].take(), r.subs["pub/"+who].take()
+		r.res.Stats["subscription_messages_compared"] += len(want)
+		if strings.Join(got, "\n") != strings.Join(want, "\n") {
+			r.res.violate("C10", "differs-from-never-contained", "subscription/"+who, i,
+				"after %s the subscription of %s delivered %d message(s) %s; on the database that never contained the private documents %d message(s) %s",
+				after, who, len(got), short(strings.Join(got, " | ")), len(want), short(strings.Join(want, " | ")))
+			return
+		}
+	}
 	// requesters who see only the public documents: compared with the twin that never held the private ones
 	private := r.liveDocs(func(d *c10Doc) bool { return d.private })
 	hiddenAll := []string{}
